@@ -39,6 +39,9 @@ func filterManifestsToKeep(manifests []releaseutil.Manifest) (keep, remaining []
 		resourcePolicyType = strings.ToLower(strings.TrimSpace(resourcePolicyType))
 		if resourcePolicyType == kube.KeepPolicy {
 			keep = append(keep, m)
+		} else {
+			// any other value of the annotation does not ask for the resource to be kept
+			remaining = append(remaining, m)
 		}
 
 	}
